@@ -708,9 +708,21 @@ def _drv_stores(case, rnd, ctx):
         b.setModel(model)
         rows = []
         for _r in range(rnd.randrange(1, 12)):
-            mv = [rnd.randrange(-500, 500) for _ in locs]
-            base, vidx = b.storeMasters(mv)
-            rows.append((mv, base, vidx))
+            def fresh():
+                # new master values, or the values of an earlier row (single or from a batch): de-duplication
+                # inside the builder must hand back an index that evaluates to the same numbers
+                if rows and rnd.random() < 0.4:
+                    return list(rnd.choice(rows)[0])
+                return [rnd.randrange(-500, 500) for _ in locs]
+            if rnd.random() < 0.35:
+                batch = [fresh() for _k in range(rnd.randrange(1, 5))]
+                bases, first = b.storeMastersMany(batch)
+                for k, (mv, base) in enumerate(zip(batch, bases)):
+                    rows.append((mv, base, first + k))
+            else:
+                mv = fresh()
+                base, vidx = b.storeMasters(mv)
+                rows.append((mv, base, vidx))
         # the same regions handed over again in other orders (as hvar/vvar do per glyph), and sub-lists of them
         direct = []
         sup_nz = [s_ for s_ in model.supports if s_]
